@@ -20,14 +20,124 @@ class Collector:
         self.covers = set()
 
     def prove(self, clause, goal, props=None, note=None):
-        self.items.append((clause, as_bool_term(goal), list(self.c.pc), props, note))
+        self.items.append((clause, goal, list(self.c.pc), props, note, list(self.c.qhyps)))
 
     def cover(self, clause):
         self.covers.add(clause)
 
     def fail(self, clause, props=None, note=None):
         """An outcome that the contract forbids on every path reaching here."""
-        self.items.append((clause, z3.BoolVal(False), list(self.c.pc), props, note))
+        self.items.append((clause, z3.BoolVal(False), list(self.c.pc), props, note, list(self.c.qhyps)))
+
+
+_SK = [0]
+
+
+_IDX_CACHE = {}
+
+
+def _index_terms_of(f):
+    """Int-sorted terms used as array indices or as arguments of ghost (g_*) functions in one formula (cached)"""
+    fid = f.get_id()
+    hit = _IDX_CACHE.get(fid)
+    if hit is not None:
+        return hit[1]
+    out = {}
+    seen = set()
+    stack = [f]
+    while stack:
+        e = stack.pop()
+        eid = e.get_id()
+        if eid in seen:
+            continue
+        seen.add(eid)
+        if not z3.is_app(e):
+            continue
+        d = e.decl()
+        k = d.kind()
+        nargs = e.num_args()
+        if k == z3.Z3_OP_SELECT or k == z3.Z3_OP_STORE:
+            t = e.arg(1)
+            if t.sort().kind() == z3.Z3_INT_SORT:
+                out[t.get_id()] = t
+        elif k == z3.Z3_OP_UNINTERPRETED and nargs >= 1 and d.name().startswith("g_"):
+            t = e.arg(0)
+            if t.sort().kind() == z3.Z3_INT_SORT:
+                out[t.get_id()] = t
+        for i in range(nargs):
+            stack.append(e.arg(i))
+    res = list(out.values())
+    if len(_IDX_CACHE) > 20000:
+        _IDX_CACHE.clear()
+    _IDX_CACHE[fid] = (f, res)       # keep f alive so the id stays valid
+    return res
+
+
+def _index_terms(fs):
+    out = {}
+    for f in fs:
+        for t in _index_terms_of(f):
+            out[t.get_id()] = t
+    return list(out.values())
+
+
+def instantiate(qhyps, base_formulas, extra_terms=(), rounds=2, cap=600):
+    """Instantiate the bounded-quantifier hypotheses at the index terms of the VC (two rounds)."""
+    if not qhyps:
+        return []
+    inst = []
+    done = set()
+    terms = {t.get_id(): t for t in list(_index_terms(base_formulas)) + list(extra_terms)}
+    frontier = list(terms.values())
+    for _ in range(rounds):
+        new = []
+        for q in qhyps:
+            for t in frontier:
+                key = (id(q), t.get_id())
+                if key in done:
+                    continue
+                done.add(key)
+                new.append(q.at(t))
+                if len(inst) + len(new) > cap:
+                    break
+        inst.extend(new)
+        more = [t for t in _index_terms(new) if t.get_id() not in terms]
+        for t in more:
+            terms[t.get_id()] = t
+        frontier = more
+        if not frontier:
+            break
+    return inst
+
+
+def discharge_goal(pc, goal, inputs, qhyps, timeout_ms):
+    """Goal may contain bounded quantifiers: skolemise them; instantiate hypothesis quantifiers."""
+    from .logic import flatten_goal
+    plain, qs = flatten_goal(goal)
+    parts = [(g, [], []) for g in plain]
+    for q in qs:
+        _SK[0] += 1
+        sk = z3.Int(f"sk!{q.name}!{_SK[0]}")
+        parts.append((q.raw(sk), [q.lo <= sk, sk < q.hi], [sk]))
+    if not parts:
+        parts = [(z3.BoolVal(True), [], [])]
+    agg = None
+    for g, extra, sks in parts:
+        gs = z3.simplify(g)
+        if z3.is_true(gs):
+            r = dict(status="discharged", backend="z3-simplify", time_s=0.0, model=None)
+        else:
+            inst = instantiate(qhyps, list(pc) + extra + [gs], extra_terms=sks)
+            r = discharge(list(pc) + extra + inst, gs, inputs, timeout_ms)
+        if agg is None:
+            agg = dict(r)
+        else:
+            agg["time_s"] += r["time_s"]
+            if r["status"] == "refuted" and agg["status"] != "refuted":
+                agg.update(status="refuted", model=r["model"], backend=r["backend"])
+            elif r["status"] == "undecided" and agg["status"] == "discharged":
+                agg.update(status="undecided", backend=r["backend"])
+    return agg
 
 
 class Job:
@@ -82,17 +192,17 @@ def explore(job: Job, timeout_ms=10000, max_paths=50000):
             taken, alt = c.decisions[k]
             if alt:
                 work.append([d[0] for d in c.decisions[:k]] + [not taken])
-        for (cl, g, pc, props, note) in O.items:
-            vcs.append((cl, g, pc, props, note, dict(c.inputs)))
-        for (cl, g, pc, note) in c.side_obligations:
-            vcs.append((cl, g, pc, None, note, dict(c.inputs)))
+        for (cl, g, pc, props, note, qh) in O.items:
+            vcs.append((cl, g, pc, props, note, dict(c.inputs), qh))
+        for (cl, g, pc, note, qh) in c.side_obligations:
+            vcs.append((cl, g, pc, None, note, dict(c.inputs), qh))
         covers |= O.covers
         if paths > max_paths:
             engine_error = f"path budget exceeded ({max_paths})"
             break
     clauses = {}
-    for (cl, g, pc, props, note, inputs) in vcs:
-        r = discharge(pc, g, inputs, timeout_ms)
+    for (cl, g, pc, props, note, inputs, qh) in vcs:
+        r = discharge_goal(pc, g, inputs, qh, timeout_ms)
         e = clauses.setdefault(cl, dict(clause=cl, status="discharged", vcs=0, time_s=0.0, backends=set(),
                                         model=None, props=props, note=None, smt_size=0))
         e["vcs"] += 1
